@@ -225,8 +225,11 @@ def openAt (ss : Sess) (i d : Nat) (r : Realm) (cd : Codec := {}) : Sess × Stri
     ((ss.putDb d db').putInst i { db := d, realm := r, mem := mem', cd := cd }, "ok")
 
 /-- The identifier serializers of the driver: the cell stores the identifier itself; `idfail` makes the encoder /
-the decoder fail.  (The driver's identifiers are the contents as functions — their equality is not executable, the
-driver's `same` answers true; every serializer pair of the harness round-trips, `C09_id_codec_invisible`.) -/
+the decoder fail.  (The driver's identifiers are the contents as functions — their equality is not executable.  In
+`stepAtI` the cell and the digest the node store was flushed under are loaded from ONE slot of the region-granular
+database — write faults of the node store, the only way to make them differ, are not modelled — and the driver's
+serializers are the identity or fail, so `same` is only ever asked about a value and itself: the constant `true` is the
+lawful answer on every argument pair that occurs.) -/
 def idCodecOf (mode : Nat) : IdCodec R0 R0 :=
   { enc := fun r => if mode % 2 == 1 then none else some r
     dec := fun b => if mode / 2 % 2 == 1 then none else some b }
